@@ -17,4 +17,40 @@ PROPS = {
         explanation="theorems: txFrame_wellformed/tx_wellformed (all commands, ALL addresses, by arithmetic not enumeration), tx_payload, get_writes_are_frames (≤ 8 copies of one frame per register access, any port behaviour), command_writes_one_frame"),
 }
 
+MODEL_PROTO = "hand-written model Victron/Model/{Frame,Proto}.lean of vedirect/*.go tied to the code by the correspondence check (T3): scripted port semantics (tools/harness/port.go = Victron.Port) are part of the tie"
+CLOCK = "the 100 ms idle test reads time.Now(): 'idle' is an input of the model, taken per attempt from the flushes the harness observed; 'slept >= 110 ms (or first call) => flush observed' is asserted by the harness"
+
+PROPS.update({
+    "C01": dict(PROTO, suites=["c01"], trivial=r"^err:other W=",
+        rule="scenario lines: for each base exchange (all widths, text, extreme addresses, short check bytes) every single-character substitution (16 hex digits, ':', newline, 'A', non-hex), deletion, truncation, insertion, random two-character corruptions (incl. check-byte-preserving), all 16 response nibbles, foreign addresses, all 256 flags, splices, noise/async around, lower-case hex, short check-byte-valid frames; device-id frames likewise; spread over 1..8 attempts and chunkings. non-trivial = the call did not simply give up after 8 unanswered attempts' worth of plain rejection, i.e. outcome is a value, a device error or fewer than 8 frames",
+        trusted_base=[KERNEL, HARNESS, GOSTD, MODEL_PROTO],
+        assumptions=["bufio.Reader behaves as an unbounded buffer for pending streams < 4096 bytes", CLOCK],
+        explanation="theorems: veCommand_sound, get_sound/getRaw_sound (value only from a complete valid type-7 frame with the requested address, flag 0, correct check byte pending after some attempt's command; payload decoded exactly), uint/int/string_sound, deviceId_sound, reject_{truncated,wrong_type,odd_length,non_hex,bad_check_byte,foreign_address,nonzero_flag}"),
+    "C02": dict(PROTO, suites=["c02"], trivial=r"^$", exhaustive={"quick": False, "thorough": True},
+        rule="exhaustive 1-byte values (6 addresses x both accessors), 2-byte values (every 5th + boundaries in quick, all 65536 in thorough), boundary and random 4/8-byte values on random addresses, uninterpretable widths, all strings of length <= 1 (<= 2 thorough) with NUL padding, random strings up to 64 bytes with interior NULs, device ids (every 3rd quick / all 65536 thorough), call histories on one driver with every returned []byte retained and re-compared at the end (aliasing clause); distinct = distinct operation lines",
+        trusted_base=[KERNEL, HARNESS, GOSTD, MODEL_PROTO],
+        assumptions=["the aliasing clause ('values already returned are not altered by later calls') is about Go's heap; the functional model has no aliasing, so that clause is checked by the harness only (retained slices re-compared), see coverage.measured.retained_slices_rechecked", CLOCK],
+        explanation="theorems: uint_roundtrip (all w<=8), int_roundtrip (w in {1,2,4,8}, full signed range), int_width_error, string_roundtrip, deviceId_roundtrip, wire_roundtrip (decode∘encode for every address and payload), get_roundtrip (end to end through the driver model)"),
+    "C04": dict(PROTO, suites=["c04"], trivial=r"^$",
+        rule="reaction sequences over the alphabet {silence, noise, async*, bad frame, foreign-address frame, partial frame, several frames, async+noise}: exhaustive for prefixes of length <= 2 (3 thorough) followed by the good frame, random prefixes with the good frame at attempt 1..9 and never; expectation computed by an independent reference consumer (refGet) written from the property text; idle / non-idle histories with stale good frames (real 110 ms sleeps)",
+        trusted_base=[KERNEL, HARNESS, GOSTD, MODEL_PROTO],
+        assumptions=[CLOCK, "'within its first eight attempts the device delivers' is read as 'is consumed within eight attempts' (a good frame queued behind a bad frame in the eighth reply is not reached)"],
+        explanation="theorems: skip (resynchronisation over noise and async frames, any chunking), success_within_eight (exactly k frames written), give_up (exactly 8 writes), writes_le_eight, idle_flush (stale bytes have no influence after an idle flush)"),
+    "C05": dict(PROTO, suites=["c05"], trivial=r"^$",
+        rule="addresses x flags {1,2,4} x accessors {raw,uint,int,str} x error frames with 0,1,2,4,8 trailing payload bytes, a good frame queued for a second attempt (must not be requested); the same behind 1..7 silent attempts; exactly k frames written is asserted",
+        trusted_base=[KERNEL, HARNESS, GOSTD, MODEL_PROTO, "errors.Is / fmt.Errorf(%w) (Go) — the harness classifies real errors with errors.Is"],
+        assumptions=[CLOCK, "the register API's wrapping with the register name is checked in C09 (transport_error_wrapped)"],
+        explanation="theorems: flag_kinds, error_frame_step, device_error_not_retried (typed error returned at once with exactly k frames), accessors_surface_error"),
+    "C06": dict(PROTO, suites=["c06"], trivial=r"^$",
+        rule="structured streams (every response nibble x payload lengths 0..5, the valid frames of type 1/5/7 cut at every length, degenerate frames) x 15 call kinds; a failing Write/Read/Flush at every call index 0..9 for every call kind in three port situations; random byte streams biased to frame characters with embedded real frames and random faults; PANIC is an output value compared with the model",
+        trusted_base=[KERNEL, HARNESS, GOSTD, MODEL_PROTO],
+        assumptions=[CLOCK, "memory safety and liveness of the Go runtime, bufio's behaviour on 100 consecutive empty reads and an infinite stream are outside the model", "a hang of the real code shows as a harness timeout (reported as violation)"],
+        explanation="theorems: veCommand_no_panic, get_no_panic, typed_no_panic, deviceId_no_panic, ping_no_panic, writes_bounded (<= 8), reads_bounded (<= credit + 8: every Read delivers device data or ends the attempt); totality of every model function is Lean's termination check"),
+    "C18": dict(PROTO, suites=["c18"], trivial=r"^$", timeout=3000,
+        rule="every scenario class of C01/C04/C05/C06 (sampled) and typed-call histories under all four logger configurations; traffic (results, bytes written, reads, flushes) compared across configurations by the harness and with the model; every I/O-log line parsed back with strconv.QuotedPrefix/Unquote; every single-exchange line replayed through a lookup port against the real driver; the file logger on real temporary files with previous content and 0..10000 lines",
+        trusted_base=[KERNEL, HARNESS, GOSTD, MODEL_PROTO, "strconv.Unquote as the inverse of %q; OS append semantics"],
+        assumptions=[CLOCK, "the debug log's text is not modelled (only its absence of effect)", "the replay clause is established on the real code by the harness oracle, not by a theorem"],
+        explanation="theorems: get/command/ping/deviceId/uint/int/string_transparent (erasing logger configuration commutes with every call), config_independent, uint_emits_one_line, no_logger_no_line, file_append, file_append_step"),
+})
+
 NOT_APPLICABLE = {}
